@@ -11,7 +11,7 @@ var (
 	TripIDs   = []string{"", "10_t", "9_t", "T3", "t4", "t4x"}
 	RouteIDs  = []string{"", "R1", "r2", "r3"}
 	StopIDs   = []string{"", "S1", "s2", "s3"}
-	VehIDs    = []string{"", "V1", "v2", "v3"}
+	VehIDs    = []string{"", "V1", "v2", "v3", "v4", "v5"}
 	Labels    = []string{"", "L1", "l2"}
 	Plates    = []string{"", "P1", "p2"}
 	Agencies  = []string{"", "A1", "a2"}
